@@ -293,6 +293,11 @@ func modelEgGo(x *Exec, cs *callSite) *Val {
 func (x *Exec) inlineClosure(cs *callSite, c *Closure) *Val {
 	c2 := *cs
 	c2.res = resultType(c.Fn.Signature)
+	if ct := x.w.contractOf(c.Fn); ct != nil {
+		// a function literal under its own contract (verified separately)
+		c2.bindings = c.Bindings
+		return x.applyContract(&c2, c.Fn, ct)
+	}
 	if x.inlinable(c.Fn) {
 		return x.inline(&c2, c.Fn, c.Bindings)
 	}
